@@ -296,6 +296,9 @@ func (m *model) applyCreateMailbox(id imap.InternalMailboxID, n newMbox) *mMbox 
 	m.mboxOrder = append(m.mboxOrder, id)
 	m.usedMbox[id] = struct{}{}
 
+	// a name that exists again is no longer a deleted subscription (gluon fix 21fa39b)
+	delete(m.deletedSubs, n.name)
+
 	return b
 }
 
@@ -310,6 +313,8 @@ func (m *model) renameMailbox(rid imap.MailboxID, name string) expect {
 	}
 
 	b.name = name
+
+	delete(m.deletedSubs, name)
 
 	return expOK
 }
